@@ -144,7 +144,9 @@ def run(ctx, pid):
         "tlc_runs": runs,
         "rule": "design spec: every case nk<=%d x first-match position x eq/gt x k class x 81 tail contents, kernel "
                 "stepped trip by trip; real code: every one of those cases + sweep over nk 0..255 + seeded random "
-                "arrays (duplicates, nk up to 1200), 8 named adversarial tails each, 4 order-preserving embeddings; "
+                "arrays (duplicates, nk up to 1200), 8 uniform/first-hit tails + 6 array-shaped non-monotone tails (ramp, stale, "
+                "trailer, mix, low-then-high) each, every call on a slice with spare capacity and a third also with cap = len, "
+                "4 order-preserving embeddings; "
                 "guard-page pass over every (array, k)" % F,
     }, ["keys are realised through order-preserving embeddings (0 and 2^64-1 always included); the kernel only compares",
         "the model explores lengths up to 2*%d; longer lengths (to 510 and random up to 2400) only on the real code" % F,
